@@ -225,6 +225,8 @@ struct Model {
     /// the last call wrote the final (non-5xx) response to a request that asked for
     /// `connection: close`: closing the write side with it is accepted, not required
     close_allowed: bool,
+    /// the last call wrote a response whose body file does not exist (see `apply`)
+    missing_file_open: bool,
 }
 
 
@@ -361,9 +363,18 @@ impl Model {
                 match sel {
                     RespSel::Unwritable => (Exp::Err(HttpError::UnwritableResponse), Wire::Nothing),
                     RespSel::Conflicting => (Exp::Err(HttpError::DuplicateContentLengthHeader), Wire::Nothing),
-                    RespSel::ShortFile | RespSel::MissingFile => {
+                    RespSel::ShortFile => {
                         // bytes went out, then the body source failed: the write side is shut
                         // down and nothing else may ever be written
+                        self.write = MWrite::Shutdown;
+                        self.fin_sent = true;
+                        (Exp::AnyErr, Wire::PartialResponse(200))
+                    }
+                    RespSel::MissingFile => {
+                        // A file that cannot be opened may be noticed after the head went out
+                        // (as above) or before anything is sent - then nothing is on the wire
+                        // and the response is still owed. Which one is decided from the wire.
+                        self.missing_file_open = true;
                         self.write = MWrite::Shutdown;
                         self.fin_sent = true;
                         (Exp::AnyErr, Wire::PartialResponse(200))
@@ -509,7 +520,7 @@ fn run_program(script_idx: usize, prog: &[OpK], interleaved: bool, gated: bool) 
         while feeder.feed() {}
     }
     let mut conn = HttpConn::new(addr(), async_net::TcpStream::sim_from_conn(id));
-    let mut model = Model { read: MRead::Head, write: MWrite::None, msgs: msgs.clone(), mi: 0, at_eof: false, fin_sent: false, last_max: 0, ignore_expect: false, read_state_open: false, close_allowed: false };
+    let mut model = Model { read: MRead::Head, write: MWrite::None, msgs: msgs.clone(), mi: 0, at_eof: false, fin_sent: false, last_max: 0, ignore_expect: false, read_state_open: false, close_allowed: false, missing_file_open: false };
     let mut wire_seen = 0usize;
     let ctx = |i: usize| format!("script '{sname}', program {:?}, at op #{i} {:?}", prog, prog[i]);
     for (i, op) in prog.iter().enumerate() {
@@ -599,6 +610,15 @@ fn run_program(script_idx: usize, prog: &[OpK], interleaved: bool, gated: bool) 
         }
         // wire
         let close_allowed = std::mem::take(&mut model.close_allowed);
+        let wire_exp = if std::mem::take(&mut model.missing_file_open) && delta.is_empty() && got.starts_with("Err(") {
+            // noticed before the first byte: nothing sent, the response is still owed
+            gen::count("probe.missing_file_noticed_before_the_head");
+            model.write = MWrite::Owed;
+            model.fin_sent = false;
+            Wire::Nothing
+        } else {
+            wire_exp
+        };
         if let Some(d) = wire_diff(&wire_exp, delta, close_allowed) {
             let clause = if matches!(exp, Exp::Err(_)) && wire_exp == Wire::Nothing { "C05.misuse_leaves_wire_alone" } else { "C05.wire_bytes" };
             return Outcome::fail(clause, format!("{}: {d}; wire delta: {}", ctx(i), gen::show(delta)));
